@@ -378,7 +378,7 @@ func (sc *c18Scenario) exec(obs *c18Obs) {
 			case 1:
 				cancel()
 			case 2:
-				time.AfterFunc(time.Duration(op.CancelMs)*time.Millisecond+500*time.Microsecond, cancel)
+				time.AfterFunc(time.Duration(op.CancelMs)*time.Millisecond+cancelOffset, cancel)
 			case 3:
 				fo.XBase.CancelOnClose = true
 			case 4:
